@@ -8,9 +8,11 @@ pysat: WCNF.append/copy, RC2.compute/cost/add_clause, IDPool.id
 """
 from __future__ import annotations
 
+import ast
+
 from . import formula as F
 from .front import AnalysisError
-from .absvals import (Const, Sym, PredV, FormulaV, LinV, Ref, TupleV, ElemV, FuncV, ClassV, ExtV, MethV, NameV, ExcV,
+from .absvals import (Const, Sym, PredV, FormulaV, LinV, Ref, TupleV, ElemV, FuncV, ClassV, ExtV, MethV, NameV, ExcV, GenV,
                       LambdaV, HList, HDict, HObj, HSolver, HWcnf, HOpaque, desc, pred_not, pred_and, pred_or, PTRUE,
                       PFALSE)
 
@@ -661,6 +663,10 @@ def _range(interp, args, kwargs, node):
 @ext("builtins.enumerate")
 def _enumerate(interp, args, kwargs, node):
     start = kwargs.get("start", args[1] if len(args) > 1 else Const(0))
+    if isinstance(args[0], GenV) and (args[0].wrap or any(isinstance(n, ast.While) or (isinstance(n, ast.For) and isinstance(n.iter, ast.Call) and ast.unparse(n.iter.func).rsplit(".", 1)[-1] == "count") for n in ast.walk(args[0].fi.node))):
+        # a generator with an open-ended loop stays lazy: it runs as far as the loop over the pairs asks for (one whose
+        # yields sit in loops over collections is read as the sequence it produces)
+        return GenV(args[0].fi, args[0].args, args[0].kwargs, args[0].wrap + (("enumerate", start),))
     segs = interp.segments(args[0], node)
     src = interp.deref(args[0]) if isinstance(args[0], Ref) else None
     resorted = getattr(src, "sorted_by", None)
@@ -728,6 +734,13 @@ def _chain(interp, args, kwargs, node):
     return _chain_of(interp, list(args), node, "chain")
 
 
+@ext("functools.partial")
+def _partial(interp, args, kwargs, node):
+    if not args:
+        interp.err(node, "functools.partial without a function")
+    return Sym(("partial", args[0], tuple(args[1:]), tuple(sorted(kwargs.items()))), "callable")
+
+
 @ext("operator.itemgetter")
 def _itemgetter(interp, args, kwargs, node):
     return Sym(("itemgetter", tuple(args)), "callable")
@@ -782,6 +795,23 @@ def _repeat(interp, args, kwargs, node):
     if len(args) != 1 or kwargs:
         interp.err(node, "itertools.repeat with a count")
     return interp.alloc(HOpaque("repeat", {"value": args[0]}))
+
+
+@ext("itertools.islice")
+def _islice(interp, args, kwargs, node):
+    """islice(xs, stop) / islice(xs, start, stop[, step]) of a sequence with known members and constant bounds."""
+    segs = interp.segments(args[0], node)
+    bounds = args[1:]
+    if all(sg[0] == "one" for sg in segs) and 1 <= len(bounds) <= 3 and all(isinstance(b, Const) and (b.value is None or (isinstance(b.value, int) and not isinstance(b.value, bool) and b.value >= 0)) for b in bounds):
+        import itertools as _it
+
+        try:
+            picked = list(_it.islice([sg[1] for sg in segs], *[b.value for b in bounds]))
+        except ValueError:
+            interp.err(node, "islice with bounds it rejects")
+        return interp.new_list(picked)
+    interp.log("call.unknown", node, func=Sym(("ext", "itertools.islice")), args=tuple(args), kwargs=dict(kwargs))
+    return Sym(("call", "itertools.islice", tuple(desc(a) for a in args), interp.fresh_id("c")))
 
 
 @ext("itertools.compress")
@@ -933,8 +963,26 @@ def _map(interp, args, kwargs, node):
 @ext("builtins.next")
 def _next(interp, args, kwargs, node):
     """next(iterable[, default]) on a sequence the engine has as a value: the first element, the default for an empty one."""
-    segs = interp.segments(args[0], node)
     has_default = len(args) > 1
+    if isinstance(args[0], GenV):
+        # a generator of the repository that has not run yet: it runs up to its first yield and no further
+        from .absint import _GenStop, RaiseSig
+        gen = args[0]
+        got = []
+        wrap = interp._gen_wrapper(gen)
+
+        def on_yield(value):
+            got.append(wrap(value))
+            raise _GenStop()
+
+        try:
+            interp.call_function(gen.fi, list(gen.args), dict(gen.kwargs), node, force_inline=True, on_yield=on_yield)
+        except _GenStop:
+            return got[0]
+        if has_default:
+            return args[1]
+        raise RaiseSig(ExcV("StopIteration"), node)
+    segs = interp.segments(args[0], node)
     if not segs:
         if has_default:
             return args[1]
@@ -1636,6 +1684,14 @@ def dict_view(interp, ref, o: HDict, which):
 
 
 def call_method(interp, obj, name, args, kwargs, node):
+    # the operator protocol called by name (d.__getitem__ handed to map, xs.__contains__ as a predicate, ...)
+    if not kwargs and isinstance(obj, (Ref, TupleV, ElemV)):
+        if name == "__getitem__" and len(args) == 1:
+            return interp.subscript(obj, args[0], node)
+        if name == "__contains__" and len(args) == 1:
+            return interp.compare("In", args[0], obj, node)
+        if name == "__len__" and not args:
+            return _len(interp, [obj], {}, node)
     if isinstance(obj, Ref):
         o = interp.deref(obj)
         if isinstance(o, HList):
